@@ -573,6 +573,11 @@ func checkListCore(r *Reporter, p *Prog) {
 		if len(handleParams) == 0 {
 			continue
 		}
+		// an unexported helper that is spliced into every caller (a shared body, an assertion helper) is
+		// judged inside each exported operation that uses it, not on its own
+		if !fd.Name.IsExported() && splicedEverywhere(p, pkg, fd) {
+			continue
+		}
 		nHandleMethods++
 		fkey := funcKey(pkg, fd)
 		f := newFuncCFG(p, info, fd.Body, fkey)
@@ -834,6 +839,54 @@ func checkListCore(r *Reporter, p *Prog) {
 			}
 			return true
 		})
+	}
+	// ---- (1b) a handle handed out is nil or an element, never a typed nil: every operation whose result
+	// type is the handle interface returns either the untyped nil, a value that already is the
+	// interface, or a concrete element pointer none of whose origins (through temporaries and the
+	// return sites of unexported helpers) is a nil literal. A nil *listElement converted to
+	// ListElement is != nil for the caller and panics on first use.
+	nIface := 0
+	for _, fd := range p.Methods(pkg, "list") {
+		if fd.Body == nil || fd.Type.Results == nil || len(fd.Type.Results.List) != 1 || !fd.Name.IsExported() {
+			continue
+		}
+		rt := info.TypeOf(fd.Type.Results.List[0].Type)
+		if rt == nil || shortTypeName(typeName(rt)) != "ListElement" {
+			continue
+		}
+		if _, isIface := rt.Underlying().(*types.Interface); !isIface {
+			continue
+		}
+		nIface++
+		fkey := funcKey(pkg, fd)
+		f := newFuncCFG(p, info, fd.Body, fkey+"/typed-nil")
+		bad := ""
+		for _, rpt := range f.Find(func(n ast.Node) bool { _, ok := n.(*ast.ReturnStmt); return ok }) {
+			rs := f.nodeAt(rpt).(*ast.ReturnStmt)
+			if len(rs.Results) != 1 || isNil(info, rs.Results[0]) {
+				continue
+			}
+			t := info.TypeOf(rs.Results[0])
+			if t == nil {
+				continue
+			}
+			if _, isPtr := t.Underlying().(*types.Pointer); !isPtr {
+				continue // already the interface
+			}
+			for _, o := range f.Origins(rs.Results[0], rpt) {
+				if isNil(info, o.E) {
+					bad = fmt.Sprintf("%s: the concrete pointer returned here can be the nil literal at %s: converted to the handle interface it is a non-nil handle wrapping a nil element", f.PosOf(rpt), p.posStr(o.E.Pos()))
+				}
+			}
+		}
+		if bad != "" {
+			r.Fail("handle/no-typed-nil", fkey, p.posStr(fd.Pos()), bad)
+		} else {
+			r.Pass("handle/no-typed-nil", fkey, p.posStr(fd.Pos()), "returns the untyped nil, an interface value, or an element pointer that is never a nil literal")
+		}
+	}
+	if nIface < 4 {
+		r.Fail("handle/no-typed-nil", "ds.list", "-", fmt.Sprintf("expected at least 4 exported operations returning a handle, found %d (vacuous)", nIface))
 	}
 	if nHandleMethods < 7 {
 		r.Fail("handle/validated", "ds.list handle-taking methods", "-", fmt.Sprintf("expected at least 7 methods taking element handles, found %d", nHandleMethods))
